@@ -162,6 +162,12 @@ def step (σ : St) (op obs : List String) : St × List Msg :=
     let mg := if σ'.snap.isEmpty then showPairs σ'.groupPairs else "loading"
     ({ σ' with implGroup := cur },
       expectEq "release.parked" (showParked σ') (normParked σ' pk) ++ expectEq "release.groups" mg grp
+      -- C06: the groups API never shows a half-built partition: while the dispatcher is still routing the alerts it
+      -- found in the provider, Groups() waits (AM.Workers.Load.no_worker_step_while_loading: nothing else moves either)
+      ++ (if mg = "loading" ∧ grp ≠ "loading" then
+            [Msg.propfail "groups_api_is_partition" "partial-during-load"
+              s!"the dispatcher has routed {σ'.groupPairs.length} of the alerts it found in the provider ({σ'.snap.length} to go) and Groups() already answers: {grp}"]
+          else [])
       ++ checkMonotone σ σ.implGroup cur ++ [.tag "load:snapshot-alert-routed"]
       ++ (if σ'.snap.isEmpty ∧ waiting > 0 then [.tag "load:done-with-updates-waiting"] else []))
   | ["release", key], ["notparked"] =>
